@@ -342,6 +342,7 @@ def gen_cfg(rng, big=False):
   gmode = rng.choice(['none', 'none', 'same', 'mixed', 'mixed'])
   ngroups = rng.choice([1, 2])
   workers = []
+  pool = rng.sample(range(-40, 400), n * (mx + 3))     # all rewards of a configuration are distinct: 'best is maximal' stays sensitive
   for i in range(n):
     if gmode == 'none' or (gmode == 'mixed' and rng.random() < 0.4):
       g, gnone = 100 + i, True
@@ -352,7 +353,7 @@ def gen_cfg(rng, big=False):
     for k in range(iters):
       script.append(('next',))
       r = rng.random()
-      rew = rng.randint(-3, 9)
+      rew = pool.pop()
       if r < 0.45: script += [('add', rew), ('done',)]
       elif r < 0.58: script += [('skip',)]
       elif r < 0.66: script += [('add', rew)]                        # left pending: the same trial comes again
@@ -403,7 +404,9 @@ def fresh_name(ctx):
   return 'c16_%d_%d_%d' % (ctx.seed, os.getpid(), _counter[0])
 
 def execute(ctx, cfg, lm, env, strat_factory):
-  return Run(cfg, lm, env).go(strat_factory(), fresh_name(ctx))
+  r = Run(cfg, lm, env)
+  r.gating = 'acts' if hasattr(lm, 'keymap') else 'raw'     # which gates the recorded decisions refer to (needed to replay them)
+  return r.go(strat_factory(), fresh_name(ctx))
 
 def fallback_linemap(env):
   """When the translation is broken there is no line -> act map: gate on every line of the anchored classes (oracle only)."""
@@ -419,18 +422,146 @@ def fallback_linemap(env):
     def gate_of(self, frame, state):
       return ('G', os.path.basename(frame.f_code.co_filename), frame.f_lineno)
     def acquire_label(self, lock, frame):
-      return ('G', 'acquire', lock.serial)
+      return ('G', 'acquire:' + os.path.basename(frame.f_code.co_filename), frame.f_lineno)
   return Any()
+
+# ------------------------------------------------------------------------------------------------
+# implementation-only exploration (needs no line -> act map): raw (file, line) gates of the anchored files, the invariant
+# oracle, and a systematic SINGLE-PREEMPTION sweep: the victim worker runs alone until it is parked in front of a chosen
+# (file, line) gate, then the other workers run (to completion, or a bounded number of steps), then the victim resumes.
+def park_strategy(victim, label, occ=1, warmup=0, others_budget=None):
+  st = dict(phase='warm', seen=0, warm=0, used=0, last=None, fired=False)
+  def choose(ctl, en):
+    v = [w for w in en if w.idx == victim]
+    others = [w for w in en if w.idx != victim]
+    if st['phase'] == 'warm':
+      if st['warm'] < warmup and others:
+        st['warm'] += 1
+        return others[0]
+      st['phase'] = 'victim'
+    if st['phase'] == 'victim':
+      if v and label is not None:
+        w = v[0]
+        if w.label == label and st['last'] != w.steps:
+          st['last'] = w.steps
+          st['seen'] += 1
+          if st['seen'] == occ:
+            st['phase'] = 'others'; st['fired'] = True
+        if st['phase'] == 'victim':
+          return w
+      elif v:
+        return v[0]
+      else:
+        st['phase'] = 'others'
+    if st['phase'] == 'others':
+      if others and (others_budget is None or st['used'] < others_budget):
+        st['used'] += 1
+        return others[0]
+      st['phase'] = 'rest'
+    return v[0] if v else en[0]
+  choose.state = st
+  return choose
+
+def park_scenarios():
+  """Small scenarios whose rewards are all DISTINCT (so that 'best is maximal' is sensitive to a stale read); the victim's
+  rewards are lower (asc) or higher (desc) than the others'; different groups / one group / three workers; done/skip mixes."""
+  out = []
+  def w(group, gnone, ops):
+    return dict(group=group, gnone=gnone, script=ops)
+  def done_iters(rs):
+    ops = []
+    for r in rs:
+      ops += [('next',), ('add', r), ('done',)]
+    return ops
+  for algo in ('random_fb', 'evo'):
+    for groups in ('different', 'same'):
+      for order in ('asc', 'desc'):
+        lo, hi = [1, 2, 3], [30, 20, 10]
+        a, b = (lo, hi) if order == 'asc' else (hi, lo)
+        g0 = (100, True) if groups == 'different' else (0, False)
+        g1 = (101, True) if groups == 'different' else (0, False)
+        out.append(dict(name='%s/%s/%s' % (algo, groups, order), max=5, algo=algo, pop=2, policy=False, stop=[],
+                        workers=[w(g0[0], g0[1], done_iters(a[:2]) + [('next',)]), w(g1[0], g1[1], done_iters(b[:2]) + [('next',)])]))
+    # three workers, one shared group, a skip and a double completion in the mix
+    out.append(dict(name='%s/mixed3' % algo, max=6, algo=algo, pop=2, policy=False, stop=[],
+                    workers=[w(100, True, [('next',), ('add', 4), ('done',), ('next',), ('skip',), ('next',)]),
+                             w(0, False, [('next',), ('add', 40), ('done',), ('done',), ('next',), ('add', 25), ('done',)]),
+                             w(0, False, [('next',), ('add', 7), ('done',), ('next',), ('add', 50), ('done',)])]))
+  return out
+
+def park_plan(ctx, env, lm, scen, victim):
+  """-> [(label, occurrence)] for every distinct gate the victim reaches when it runs alone first, local_backend.py first."""
+  cfg = {k: v for k, v in scen.items() if k != 'name'}
+  base = execute(ctx, cfg, lm, env, lambda: park_strategy(victim, None))
+  counts = collections.Counter(lab for (t, lab) in base.ctl.trace if t == victim)
+  order = []
+  for (t, lab) in base.ctl.trace:
+    if t == victim and lab not in order:
+      order.append(lab)
+  rank = lambda lab: 0 if 'local_backend' in str(lab[1]) else (1 if 'dna_generator' in str(lab[1]) else 2)
+  order.sort(key=rank)
+  plan = [(lab, 1) for lab in order] + [(lab, 2) for lab in order if counts[lab] >= 2]
+  return cfg, plan
+
+def park_sweep(ctx, env, budget_s, sample=None, stop_on_hit=True):
+  pg, protocols, core, pg_env = _pg()
+  lm = fallback_linemap(env)
+  t0 = time.time()
+  runs = fired = 0
+  gates_seen = set()
+  jobs = []
+  for scen in park_scenarios():
+    for victim in (0, 1):
+      if time.time() - t0 > budget_s:
+        break
+      cfg, plan = park_plan(ctx, env, lm, scen, victim)
+      for (lab, occ) in plan:
+        gates_seen.add(lab)
+        jobs.append((scen['name'], cfg, victim, lab, occ))
+      if sample is None:
+        # run this scenario's jobs right away (budget driven, most relevant scenarios first)
+        while jobs:
+          name, cfg, victim, lab, occ = jobs.pop(0)
+          if time.time() - t0 > budget_s or (stop_on_hit and ctx.hits):
+            jobs = []
+            break
+          for budget in (None,):
+            strat = [None]
+            def fac(victim=victim, lab=lab, occ=occ, budget=budget):
+              strat[0] = park_strategy(victim, lab, occ, 0, budget)
+              return strat[0]
+            r = execute(ctx, cfg, lm, env, fac)
+            runs += 1
+            fired += 1 if strat[0].state['fired'] else 0
+            if r.ctl.outcome in ('finished', 'deadlock'):
+              record_hits(ctx, r, cfg, dict(kind='park', scenario=name, victim=victim, before=list(lab), occurrence=occ), gating='raw')
+    if (stop_on_hit and ctx.hits) or time.time() - t0 > budget_s:
+      break
+  if sample is not None:
+    for (name, cfg, victim, lab, occ) in ctx.rng.sample(jobs, min(sample, len(jobs))):
+      if time.time() - t0 > budget_s:
+        break
+      budget = ctx.rng.choice([None, None, 25, 60])
+      strat = [None]
+      def fac(victim=victim, lab=lab, occ=occ, budget=budget):
+        strat[0] = park_strategy(victim, lab, occ, 0, budget)
+        return strat[0]
+      r = execute(ctx, cfg, lm, env, fac)
+      runs += 1
+      fired += 1 if strat[0].state['fired'] else 0
+      if r.ctl.outcome in ('finished', 'deadlock'):
+        record_hits(ctx, r, cfg, dict(kind='park', scenario=name, victim=victim, before=list(lab), occurrence=occ, others_budget=budget), gating='raw')
+  return dict(runs=runs, preemption_fired=fired, distinct_gates=len(gates_seen), scenarios=len(park_scenarios()), seconds=round(time.time() - t0, 1))
 
 def describe_case(cfg, sdesc):
   return dict(threads=len(cfg['workers']), num_examples=cfg['max'], algorithm=cfg['algo'], population=cfg['pop'], policy=cfg['policy'],
               groups=[None if w['gnone'] else w['group'] for w in cfg['workers']], scripts=[' '.join(o[0] + (str(o[1]) if len(o) > 1 else '') for o in w['script']) for w in cfg['workers']],
               strategy=sdesc)
 
-def record_hits(ctx, run, cfg, sdesc):
+def record_hits(ctx, run, cfg, sdesc, gating=None):
   hs = oracle(run)
   for sig, what in hs:
-    ctx.hit(sig, what, dict(cfg=cfg, strategy=sdesc, decisions=run.ctl.decisions, outcome=run.ctl.outcome))
+    ctx.hit(sig, what, dict(cfg=cfg, strategy=sdesc, decisions=run.ctl.decisions, outcome=run.ctl.outcome, gating=gating or run.gating))
   return hs
 
 def run(ctx):
@@ -447,7 +578,14 @@ def run(ctx):
     gates = sorted(lm.gate_text)
     ctx.extra['program'] = dict(acts=sum(len(p) for p in info['progs']), gates=len(gates), entries=info['entries'],
                                 translator_assumptions=info['assumptions'], summarised=info['summaries'])
-  # corpus first: the witnesses of the repaired findings (and anything kept from earlier failures) must hold now
+  # something is already broken (translation stopped / instance obligation / a proof): look for a failing schedule right away
+  early_sweep = False
+  if ctx.is_broken():
+    ctx.log('something no longer checks: implementation-only single-preemption sweep (raw line gates, invariant oracle)')
+    ctx.extra['park_sweep_full'] = park_sweep(ctx, env, budget_s=ctx.scale(60.0, 900.0), sample=None, stop_on_hit=True)
+    ctx.log('sweep: %s' % ctx.extra['park_sweep_full'])
+    early_sweep = True
+  # corpus: the witnesses of the repaired findings (and anything kept from earlier failures) must hold now
   import glob
   from harness.lib.common import VERIF
   ncorpus = 0
@@ -485,7 +623,7 @@ def run(ctx):
           sweep_cases.append((r.model_case(), r.observed(), describe_case(cfg, sdesc)))
       lm.unmapped = []
     ctx.extra['preempt_sweep'] = dict(gate_acts=len(gates), tried=len(sweep), preemption_fired=fired)
-  nsched = ctx.scale(110, 4000)
+  nsched = ctx.scale(110, 4000) if not (early_sweep and ctx.hits) else ctx.scale(30, 300)
   budget = ctx.scale(70.0, 1000.0)
   t_start = time.time()
   cases, impl_outs, descrs = [], [], []
@@ -530,25 +668,13 @@ def run(ctx):
                       describe=lambda c: lookup.get(id(c)))
     ctx.traces_validated = len(cases) - len(bad)
     ctx.extra['trace_steps_validated'] = sum(len(c[2]) for c in cases)
-  # targeted search when an obligation / the correspondence is broken and nothing was hit: preempt after every gate act, co-workers of one group
-  if ctx.is_broken() and not ctx.hits and not ctx.known_hits:
-    ctx.log('something no longer checks: targeted schedule search')
-    t1 = time.time()
-    order = list(gates); rng.shuffle(order)
-    for pi in order:
-      if time.time() - t1 > ctx.scale(60.0, 600.0) or ctx.hits:
-        break
-      for trial in range(2):
-        cfg = gen_cfg(rng)
-        for w in cfg['workers'][:2]:
-          w['group'], w['gnone'] = 0, False
-        seed = rng.randrange(1 << 30)
-        sdesc = dict(kind='preempt', after=list(pi), seed=seed)
-        fac = (lambda pi=pi, seed=seed: core.preempt_at_strategy(random.Random(seed), lambda lab: len(lab) == 3 and lab[0] in ('L', 'G') and (lab[1], lab[2]) == tuple(pi))) if info is not None \
-            else (lambda seed=seed: core.random_strategy(random.Random(seed)))
-        r = execute(ctx, cfg, lm, env, fac)
-        if r.ctl.outcome in ('finished', 'deadlock'):
-          record_hits(ctx, r, cfg, sdesc)
+  # always on: a small seeded sample of the implementation-only single-preemption sweep (raw (file, line) gates, distinct rewards)
+  ctx.extra['park_sweep_sample'] = park_sweep(ctx, env, budget_s=ctx.scale(10.0, 120.0), sample=ctx.scale(14, 300), stop_on_hit=False)
+  # when an obligation / the translation / the correspondence is broken and nothing was hit: the full sweep, budgeted
+  if ctx.is_broken() and not ctx.hits and not ctx.known_hits and not early_sweep:
+    ctx.log('something no longer checks: implementation-only single-preemption sweep (raw line gates, invariant oracle)')
+    ctx.extra['park_sweep_full'] = park_sweep(ctx, env, budget_s=ctx.scale(60.0, 900.0), sample=None, stop_on_hit=True)
+    ctx.log('sweep: %s' % ctx.extra['park_sweep_full'])
   ctx.extra['schedules_run'] = ctx.evaluations
   ctx.exhaustive = False
 
@@ -556,11 +682,14 @@ def replay(ctx, rp):
   pg, protocols, core, pg_env = _pg()
   env = pg_env.install()
   c = rp['case']
-  try:
-    text, info = sched_prog.translate()
-    lm = pg_env.LineMap(info, REPO, env)
-  except Exception as e:
-    print('  (translation broken: %s; replaying with every line as a gate)' % e)
+  lm = None
+  if c.get('gating') != 'raw':
+    try:
+      text, info = sched_prog.translate()
+      lm = pg_env.LineMap(info, REPO, env)
+    except Exception as e:
+      print('  (translation broken: %s; replaying with every line as a gate)' % e)
+  if lm is None:
     lm = fallback_linemap(env)
   r = execute(ctx, c['cfg'], lm, env, lambda: core.replay_strategy(c['decisions']))
   hs = oracle(r)
